@@ -40,6 +40,7 @@ type Outcome struct {
 	Sig        uint64       // hash of the observed outcome (distinct counting); 0 = none
 	NonTrivial bool
 	Skipped    bool // case excluded by the generator discipline (not an evaluation)
+	Partial    bool // the case stopped early because the family budget expired (non exhaustive, not a violation)
 	States     uint64
 	Trans      uint64
 }
@@ -122,7 +123,18 @@ type workerMsg struct {
 
 const sigCap = 300000
 
+// workerDeadline is the unix time at which the current family's budget
+// expires (0 = none).  Long running cases poll Expired().
+var workerDeadline int64
+
+// Expired reports whether the budget of the family being run has expired; a
+// case that stops early because of it must set Outcome.Partial.
+func Expired() bool {
+	return workerDeadline > 0 && time.Now().Unix() > workerDeadline
+}
+
 func runWorker(c *Check, tier, famName string, shard, of, from uint64, deadline int64) {
+	workerDeadline = deadline
 	// Address-space cap: an allocation bomb must kill this worker, not the box.
 	var lim syscall.Rlimit
 	lim.Cur, lim.Max = 24<<30, 24<<30
@@ -155,7 +167,7 @@ func runWorker(c *Check, tier, famName string, shard, of, from uint64, deadline 
 		start += (shard + of - start%of) % of
 	}
 	for i := start; i < fam.Size; i += of {
-		if deadline > 0 && (i/of)%64 == 0 && time.Now().Unix() > deadline {
+		if deadline > 0 && time.Now().Unix() > deadline {
 			done.Full = false
 			break
 		}
@@ -169,6 +181,9 @@ func runWorker(c *Check, tier, famName string, shard, of, from uint64, deadline 
 		}
 		o := runCase(fam, i)
 		done.Last = i
+		if o.Partial {
+			done.Full = false
+		}
 		if o.Skipped {
 			done.Skipped++
 			continue
